@@ -407,6 +407,10 @@ def wellformed(C, syn):
             prob('SUBELEMENTS|element-range', 'SUBELEMENTS[%d] = e!(%d) >= len(ELEMENTS)' % (i, v))
         if e['name'] == 'g' and v >= n_dt:
             prob('SUBELEMENTS|group-range', 'SUBELEMENTS[%d] = g!(%d) >= len(DATATYPES)' % (i, v))
+        elif e['name'] == 'g':
+            gm = dts[v]['fields']['mode'].get('v') if dts[v].get('k') == 'struct' else None
+            if gm == 'ContentMode::Characters':
+                prob('SUBELEMENTS|groups-not-characters', 'SUBELEMENTS[%d] = g!(%d) refers to a Characters-mode type (the panic!/unreachable! arms for group modes become reachable)' % (i, v))
     # ATTRIBUTES
     for i, e in enumerate(attrs):
         cells += 1
